@@ -250,6 +250,8 @@ pub struct PanicRec {
     pub role: String,
     pub message: String,
     pub location: String,
+    /// caught by the database's own catch_unwind (the thread lives on)
+    pub contained: bool,
 }
 
 /// "When a thread reaches sync point `label` for the `nth` time, arm trigger `trigger` and let the
@@ -290,6 +292,8 @@ pub struct Ctx {
     pub notes: Vec<(&'static str, Vec<u64>)>,
     pub last_panic: Option<(String, String)>,
     pub poison_seen: u64,
+    /// panics the database caught itself: (message, location)
+    pub contained_panics: Vec<(String, String)>,
 }
 
 impl Ctx {
@@ -313,6 +317,7 @@ impl Ctx {
             notes: Vec::new(),
             last_panic: None,
             poison_seen: 0,
+            contained_panics: Vec::new(),
         }
     }
 }
@@ -534,7 +539,7 @@ pub fn record_panic(task: usize, role: &str) {
             kind: "panic",
             detail: format!("{role}: {location}: {}", truncate(&message, 160)),
         });
-        c.panics.push(PanicRec { seq, task, role: role.to_string(), message, location });
+        c.panics.push(PanicRec { seq, task, role: role.to_string(), message, location, contained: false });
     });
 }
 
